@@ -47,8 +47,8 @@ func checkCase(c Case, rec *evid.Rec) (error, int) {
 		return fmt.Errorf("engine rejects valid FEN %q: %v", c.FEN, err), 0
 	}
 	rawStart := p.EP >= 0 && !p.EPCapturable()
-	strict := map[string]int{}  // identity as the property defines it
-	altCnt := map[string]int{}  // same, except that the start position keeps its raw en-passant flag (finding F5)
+	strict := map[string]int{} // identity as the property defines it
+	altCnt := map[string]int{} // same, except that the start position keeps its raw en-passant flag (finding F5)
 	placements := map[string]map[string]bool{}
 	known := 0
 	startAlt := p.Key() + fmt.Sprintf("|rawep%d", p.EP%8)
@@ -154,55 +154,6 @@ func checkUCI(c Case, rec *evid.Rec) error {
 	return nil
 }
 
-// history draws a game with actions biased towards recurrences.
-func history(t *rapid.T, root refchess.Pos, maxSteps int) []string {
-	p := root
-	var moves []refchess.Move
-	var out []string
-	steps := gen.Draw(t, 0, maxSteps, "steps")
-	for len(out) < steps {
-		legal := p.Legal()
-		if len(legal) == 0 || p.Half >= 100 {
-			break
-		}
-		find := func(m refchess.Move) bool {
-			for _, l := range legal {
-				if l == m {
-					return true
-				}
-			}
-			return false
-		}
-		var m refchess.Move
-		ok := false
-		switch gen.Draw(t, 0, 7, "action") {
-		case 0, 1, 2: // reverse my move of two plies ago
-			if n := len(moves); n >= 2 {
-				m = refchess.Move{From: moves[n-2].To, To: moves[n-2].From}
-				ok = find(m)
-			}
-		case 3: // replay the cycle of the last four plies
-			if n := len(moves); n >= 4 {
-				m = moves[n-4]
-				ok = find(m)
-			}
-		case 4: // irreversible: capture or pawn move
-			m, ok = gen.PickMove(t, &p, legal, gen.PreferCapture, refchess.Move{}), true
-		case 5: // double pushes, castling, promotions (transient en-passant rights, lost castling rights)
-			m, ok = gen.PickMove(t, &p, legal, gen.PreferSpecial, refchess.Move{}), true
-		case 6: // king / rook / knight shuffles
-			m, ok = gen.PickMove(t, &p, legal, gen.Shuffle, refchess.Move{}), true
-		}
-		if !ok {
-			m = gen.PickMove(t, &p, legal, gen.Shuffle, refchess.Move{})
-		}
-		moves = append(moves, m)
-		out = append(out, m.String())
-		p = p.Make(m)
-	}
-	return out
-}
-
 func TestC10(t *testing.T) {
 	evid.Main(t, "C10", func(rec *evid.Rec) {
 		rec.Rule("model-based histories: start = suite/bench/synthetic/motif root (FEN-loaded, hash history reset, en-passant field engine-normalised), then up to 200 generated steps from the actions {reverse my move of two plies ago, replay the last 4-ply cycle, irreversible move, double push/castle/promotion, king/rook/knight shuffle, random}; after EVERY move Threefold() is compared with min(3, occurrences of the reference identity (placement, side, rights, en-passant capturability) in the history list). UCI leg: the same games through `position fen F moves ...` + `go depth 2` (bestmove 0000 iff third occurrence / no legal move / clock>=100). Separate class: start FENs carrying a raw, uncapturable en-passant target (known finding). Non-trivial = step with true count >= 2, or an earlier position with the same placement but different rights / en-passant capturability; distinct by (start, move prefix)")
@@ -217,7 +168,7 @@ func TestC10(t *testing.T) {
 				root.Half = gen.Draw(t, 0, 20, "half")
 			}
 			rec.Class("root_" + label)
-			c := Case{FEN: root.FEN(), Moves: history(t, root, 200)}
+			c := Case{FEN: root.FEN(), Moves: gen.History(t, root, 200)}
 			if rec.WantSample("history") && len(c.Moves) > 8 {
 				rec.Sample("history", c)
 			}
@@ -255,7 +206,7 @@ func TestC10(t *testing.T) {
 			} else if root.EP >= 0 {
 				rec.Class("start_ep_capturable")
 			}
-			c := Case{FEN: root.FEN(), Moves: history(t, root, 40)}
+			c := Case{FEN: root.FEN(), Moves: gen.History(t, root, 40)}
 			err, known := checkCase(c, rec)
 			if known > 0 {
 				rec.KnownHit(knownKey, "start FEN with a raw, uncapturable en-passant target keeps the flag in its hash: its recurrence is counted one short (e.g. "+c.FEN+")")
@@ -277,7 +228,7 @@ func TestC10(t *testing.T) {
 			if root.Half > 60 {
 				root.Half = gen.Draw(t, 0, 20, "half")
 			}
-			c := Case{FEN: root.FEN(), Moves: history(t, root, 60), UCI: true}
+			c := Case{FEN: root.FEN(), Moves: gen.History(t, root, 60), UCI: true}
 			if rec.WantSample("uci") && len(c.Moves) > 8 {
 				rec.Sample("uci", c)
 			}
